@@ -264,6 +264,10 @@ Definition r_wedged (v : variant) (s : rstate) : Prop :=
      Add(runner)   84-91     if c.running.Load() { return ErrManagerAlreadyStarted }        [CAddCheck, which in the
                               return c.mngr.Add(runner)       same step does the inner manager's own test]
                               ... the inner Add's locked append                              [CAddAppend k]
+                              After the third fix: the lock-free test [CAddCheck]; then, under mngr.lock,
+                              running tested again and c.mngr.runners appended directly [CAddAppend k]; and
+                              Run reads len(mngr.runners) and appends the close-runner under the same lock
+                              [CSetupLen], then starts the inner manager [CSetup].
      Close()       185-195    if closed.CAS(false,true) { close(closeCh) }                    [CCloseBegin]
                               if running.CAS(false,true) { close(stopped) }                   [CCloseStep c, 1st]
                               <-stopped; return retErr                                        [CCloseStep c, 2nd]
@@ -299,9 +303,9 @@ Inductive kst :=
 | KB                          (* running CAS done; blocked on <-stopped *)
 | KRet (errs : list err).     (* Close returned errs *)
 
-(* a RunnerCloserManager.Add call: refused by its own running test, or handed on to the inner
-   manager's Add (call number [a] there) *)
-Inductive cadd := CARefused | CAPassed (a : nat).
+(* a RunnerCloserManager.Add call: refused by its running test, or handed on to the inner
+   manager's Add (call number [a] there); after the third fix: waiting for the lock with runner b *)
+Inductive cadd := CARefused | CAPassed (a : nat) | CAPending (b : beh).
 
 Record cstate := mkcs {
   inner : rstate;
@@ -395,7 +399,9 @@ Definition inner_allowed (e : revt) : bool :=
   | _ => false
   end.
 
-Definition step_c (v : variant) (s : cstate) (e : cev) : option cstate :=
+(* [v]: the AddCloser / RunnerManager fixes; [u]: the third fix (RunnerCloserManager.Add appends, and
+   Run decides about the close-runner, under mngr.lock) *)
+Definition step_c_gen (v u : variant) (s : cstate) (e : cev) : option cstate :=
   match e with
   | CRunCas =>
       if c_running s
@@ -407,14 +413,29 @@ Definition step_c (v : variant) (s : cstate) (e : cev) : option cstate :=
                       (reterr s) (addcl s) (closes s) (run_rejected s) (cadds s))
   | CSetupLen =>
       match c_pc s with
-      | CStarted => Some (w_pc s (CDecided (match r_runners (inner s) with [] => false | _ => true end)))
+      | CStarted =>
+          let w := match r_runners (inner s) with [] => false | _ => true end in
+          if is_fixed u
+          then (* under the lock: read the length AND append the close-runner *)
+               let i0 := inner s in
+               let i1 := if w
+                         then match step_r v i0 (RAddCheck CloseRunner) with
+                              | Some x => step_r v x (RAddAppend (length (r_adds i0)))
+                              | None => None
+                              end
+                         else Some i0 in
+               match i1 with
+               | Some x => Some (w_pc (w_inner s x) (CDecided w))
+               | None => None
+               end
+          else Some (w_pc s (CDecided w))
       | _ => None
       end
   | CSetup =>
       match c_pc s with
       | CDecided w =>
           let i0 := inner s in
-          let i1 := if w
+          let i1 := if w && negb (is_fixed u)
                     then match step_r v i0 (RAddCheck CloseRunner) with
                          | Some x => step_r v x (RAddAppend (length (r_adds i0)))
                          | None => None
@@ -561,6 +582,8 @@ Definition step_c (v : variant) (s : cstate) (e : cev) : option cstate :=
   | CAddCheck b =>
       if c_running s
       then Some (w_cadds s (cadds s ++ [CARefused]))
+      else if is_fixed u
+      then Some (w_cadds s (cadds s ++ [CAPending b]))
       else match step_r v (inner s) (RAddCheck b) with
            | Some x => Some (w_cadds (w_inner s x) (cadds s ++ [CAPassed (length (r_adds (inner s)))]))
            | None => None
@@ -568,14 +591,31 @@ Definition step_c (v : variant) (s : cstate) (e : cev) : option cstate :=
   | CAddAppend k =>
       match nth_error (cadds s) k with
       | Some (CAPassed a) =>
-          if lock_held s then None
+          if lock_held s || is_fixed u then None
           else match step_r v (inner s) (RAddAppend a) with
                | Some x => Some (w_inner s x)
+               | None => None
+               end
+      | Some (CAPending b) =>
+          (* third fix: under the lock, running is tested again and the runner appended to the
+             inner manager's slice (which is not running: as if by its own Add) *)
+          if lock_held s || negb (is_fixed u) then None
+          else if c_running s
+          then Some (w_cadds s (upd k (fun _ => CARefused) (cadds s)))
+          else match step_r v (inner s) (RAddCheck b) with
+               | Some x =>
+                   match step_r v x (RAddAppend (length (r_adds (inner s)))) with
+                   | Some y => Some (w_cadds (w_inner s y)
+                                       (upd k (fun _ => CAPassed (length (r_adds (inner s)))) (cadds s)))
+                   | None => None
+                   end
                | None => None
                end
       | _ => None
       end
   end.
+
+Definition step_c (v : variant) (s : cstate) (e : cev) : option cstate := step_c_gen v v s e.
 
 (* NewRunnerCloserManager(log, grace, bs...) followed by AddCloser(cls...) *)
 Definition new_cm (grace : bool) (bs : list beh) (cls : list (option err)) : cstate :=
@@ -587,6 +627,13 @@ Fixpoint run_c (v : variant) (s : cstate) (es : list cev) : option cstate :=
   match es with
   | [] => Some s
   | e :: es' => match step_c v s e with Some s' => run_c v s' es' | None => None end
+  end.
+
+(* the current tree and its neighbours: the first two fixes and the third chosen independently *)
+Fixpoint run_c_gen (v u : variant) (s : cstate) (es : list cev) : option cstate :=
+  match es with
+  | [] => Some s
+  | e :: es' => match step_c_gen v u s e with Some s' => run_c_gen v u s' es' | None => None end
   end.
 
 Definition c_all (st : cst) (ps : list cproc) : Prop := forall p, In p ps -> c_st p = st.
@@ -616,7 +663,7 @@ Definition add_race : list revt :=
   [RAddCheck (Free None); RRunCas; RSpawn; RAddAppend 0; RRunnerReturn 0; RCollect 0].
 
 (* A third check-then-act gap, found while modelling RunnerCloserManager.Add (present in the
-   current tree): Add passes its tests on a manager that has no runner yet, Run reads
+   tree with the first two fixes, [run_c_gen Fixed Original]; closed by the third): Add passes its tests on a manager that has no runner yet, Run reads
    len(mngr.runners) = 0 and decides that no close-runner is needed, Add appends, the inner
    manager starts - with one runner and nobody listening on closeCh. *)
 Definition add_watcher_race : list cev :=
